@@ -154,7 +154,7 @@ def main(tier, seed, replay):
             # 2. model vs implementation (chunks in parallel; the cases are independent)
             import time
             t0 = time.time()
-            mh, mc, err = parallel_model(mexe, header, cases, max(2, min(12, L.NCPU)))
+            mh, mc, err = parallel_model(mexe, header, cases, max(2, min(6, L.NCPU)))
             st["model_wall_s"] = round(time.time() - t0, 2)
             if mh is None:
                 p = L.write_replay(PROP, "model_failure.txt", err)
